@@ -192,9 +192,9 @@ Iterate ==
                                          ELSE IF i \in r.fp THEN 0
                                          ELSE IF fage[i] >= 0 THEN fage[i] + 1 ELSE -1]
                /\ ferrs' = ferrs \cup S
+               /\ step' = Obs("iterate", <<ord, S>>)     \* the args name the choice made (not an input)
     /\ iter' = iter + 1
     /\ UNCHANGED <<cfg, now, n>>
-    /\ step' = Obs("iterate", <<>>)
 
 Next ==
     \/ \E f \in CbForms, k \in KindsCb : \E a \in ScriptArgs(k) : AddCallback(f, k, a)
